@@ -238,6 +238,7 @@ func (c *CoinsV) vs() string {
 type BoolV struct {
 	F   string
 	Neg bool
+	Aux string // for error tests: the origin (call term) of the error value
 }
 
 func (b *BoolV) vs() string {
@@ -259,6 +260,11 @@ func (e *ErrV) vs() string { return fmt.Sprintf("err%d<%s>", e.ID, e.Origin) }
 type CmpV struct{ A, B Lin }
 
 func (c *CmpV) vs() string { return "cmp(" + c.A.String() + " ? " + c.B.String() + ")" }
+
+// TCmpV: the int result of a.Compare(b) on time values.
+type TCmpV struct{ A, B string }
+
+func (c *TCmpV) vs() string { return "tcmp(" + c.A + " ? " + c.B + ")" }
 
 type Tuple struct{ Vs []Val }
 
